@@ -124,6 +124,14 @@ def nestStep (st : Option (List Frame)) (e : Ev) : Option (List Frame) :=
 /-- the transition events of a trace are well nested and balanced from `stack` back to `stack` -/
 def nests (stack : List Frame) (evs : List Ev) : Prop := evs.foldl nestStep (some stack) = some stack
 
+/-- what a client sees that defines only some of the two hooks `RLBOX_TRANSITION_ACTION_IN` / `..._OUT`: the notifications
+of a hook that is not defined are absent, everything else is unchanged -/
+def hookView (inOn outOn : Bool) (evs : List Ev) : List Ev :=
+  evs.filter fun e => match e with
+    | .inI _ | .inC _ _ => inOn
+    | .outI _ | .outC _ _ => outOn
+    | _ => true
+
 /-- number of boundary crossings = number of timing records (one per invocation, one per callback) -/
 def crossings (evs : List Ev) : Nat := (evs.filter fun e => match e with | .inI _ => true | .outC _ _ => true | _ => false).length
 def records (evs : List Ev) : Nat := (evs.filter fun e => match e with | .outI _ => true | .inC _ _ => true | _ => false).length
